@@ -30,7 +30,7 @@ for d in sorted(glob.glob("/verif/mutants/revert-*")):
     if os.path.exists(r):
         j = json.load(open(r)); m = json.load(open(os.path.join(d, "meta.json")))
         rv = j.get("reverified", {})
-        rows.append("| %s | %s | %s (%s) at %s | %s |" % (os.path.basename(d), m.get("property"), rv.get("own_check", "-"), "; ".join(rv.get("signatures", [])[:2]), rv.get("repo_commit", "-"), ", ".join(sorted(j.get("caught_by", {}))) or "-"))
+        rows.append("| %s | %s | %s (%s) at %s%s | %s |" % (os.path.basename(d), m.get("property"), rv.get("own_check", "-"), "; ".join(rv.get("signatures", [])[:2]), rv.get("repo_commit", "-"), (" - NOTE: " + m["note"]) if m.get("note") else "", ", ".join(sorted(j.get("caught_by", {}))) or "-"))
 
 rows.append("\n### Hand-written mutants from the properties' hints (mutants/hint-*)\n")
 rows.append("One textual replacement each (tools/make_hint_mutants.py). 'suite fails' = the existing tests already notice it, so it is not a change the checks are needed for (kept for the record). 'equivalent' = on inspection the change cannot alter anything a given property talks about.\n")
